@@ -17,12 +17,9 @@ the model, which is the representation-independence the streams check.
 `atoms` = `,`-separated hex (`-` = empty atom; `~` if there is none), `pairs` = `,`-separated
 `<child>.<child>` with `A<k>` / `P<k>` (`~` if none).
 
-The allocatable bound of the decoder model (`allocCap`) is fixed to 2^40 on protocol lines: the
-harness never declares an atom length in (2^24, 2^45), runs every request that may abort in a child
-process, and a request for ≥ 2^45 bytes fails on any machine this runs on.
+Requests with `max_atom_len` above 2^24 whose probe fails are still executed in a child process by the
+harness (a regression of finding I would abort there and show up as `abort` ≠ model reply).
 -/
-
-def protoAllocCap : Nat := 2 ^ 40
 
 def parseDagNodes : List String → Array SNode → Option (Array SNode)
   | [], acc => some acc
@@ -77,7 +74,7 @@ def handleDe2026 (args : List String) : Option String :=
     let strict ← if st == "1" then some true else if st == "0" then some false else none
     match fmt with
     | "2026" =>
-      match deserialize2026Consumed protoAllocCap b maxAtomLen strict with
+      match deserialize2026Consumed b maxAtomLen strict with
       | .ok (t, n) => some s!"ok {Wire.hexOfTree t} {n}"
       | .error e => some (fmtErr e)
     | "len2026" =>
